@@ -15,10 +15,12 @@ import (
 	"github.com/theQRL/go-qrllib/common"
 	"github.com/theQRL/go-qrllib/dilithium"
 	"github.com/theQRL/go-qrllib/misc"
+	"github.com/theQRL/go-qrllib/qrl"
 	"github.com/theQRL/go-qrllib/xmss"
 	"pgregory.net/rapid"
 	"verifharness/ev"
 	"verifharness/pu"
+	"verifharness/ref/codecref"
 	"verifharness/ref/xmssref"
 )
 
@@ -29,6 +31,7 @@ func TestMain(m *testing.M) {
 		{Test: "TestXMSSRecovery", Quick: 12, Thorough: 16},
 		{Test: "TestDilithiumRecovery", Quick: 4, Thorough: 8},
 		{Test: "TestFreshKeys", Quick: 4, Thorough: 8},
+		{Test: "TestColdRecovery", Quick: 2, Thorough: 2},
 	})
 }
 
@@ -334,6 +337,40 @@ func TestDilithiumRecovery(t *testing.T) {
 	})
 }
 
+// TestColdRecovery: restoring a wallet from a written-down mnemonic is typically the FIRST thing a process does.
+// The phrase comes from the reference codec; the library has neither generated a key nor encoded anything yet.
+func TestColdRecovery(t *testing.T) {
+	r := ev.New(t, prop, "TestColdRecovery")
+	r.Rule("fresh process: the first library call recovers a wallet from a mnemonic produced by the reference codec (Dilithium in shard 0, XMSS h=4 in shard 1); the recovered public key must equal the reference model's; non-trivial = the first call of the process, distinct by scheme")
+	words := qrl.WordList[:]
+	if r.Shard()%2 == 0 {
+		seed := pu.DetBytes(r.Seed()*19+3, 48)
+		phrase, _ := codecref.Encode(seed, words)
+		var d *dilithium.Dilithium
+		var err error
+		o := ev.Try(func() { d, err = dilithium.NewDilithiumFromMnemonic(phrase) })
+		c := &dCase{Seed: seed}
+		r.Eval(1)
+		r.NonTrivial("cold", "dilithium")
+		r.Check(t, !o.Panicked && err == nil, "cold/dilithium-mnemonic", c, "NewDilithiumFromMnemonic as the first call of the process: %s err=%v", o, err)
+		pk := d.GetPK()
+		r.Check(t, bytes.Equal(pk[:], pu.DilRef(seed).PK), "cold/dilithium-pk", c, "recovered public key differs from the specification's")
+	} else {
+		seed := pu.DetBytes(r.Seed()*23+5, 48)
+		es := append([]byte{byte(xmss.SHAKE_128), 2, 0}, seed...)
+		phrase, _ := codecref.Encode(es, words)
+		var x *xmss.XMSS
+		o := ev.Try(func() { x = xmss.NewXMSSFromExtendedSeed(misc.MnemonicToExtendedSeedBin(phrase)) })
+		c := &xCase{Mode: "real", Hash: 1, H: 4, Seed: seed}
+		r.Eval(1)
+		r.NonTrivial("cold", "xmss")
+		r.Check(t, !o.Panicked, "cold/xmss-mnemonic", c, "recovering an XMSS wallet from its mnemonic as the first call of the process: %s", o)
+		pk := x.GetPK()
+		r.Check(t, bytes.Equal(pk[:], pu.RefPK(xmssref.NewKey(seed, 4, xmssref.SHAKE128), xmss.SHAKE_128)), "cold/xmss-pk", c, "recovered public key differs from the reference model's")
+	}
+	r.Sample(map[string]any{"first_call": "wallet recovery from a mnemonic", "shard": r.Shard()})
+}
+
 // ---- keys from fresh randomness ----
 
 func TestFreshKeys(t *testing.T) {
@@ -398,6 +435,9 @@ func init() {
 		key, msg := runD(r, &c)
 		r.Check(t, key == "", key, &c, "%s", msg)
 	}
+	ev.Register("TestColdRecovery", func(t *testing.T, r *ev.Recorder, raw json.RawMessage) {
+		t.Skip("a cold-start case is a property of a fresh process: re-run ./check C09 quick")
+	})
 	ev.Register("TestXMSSRecovery", xf)
 	ev.Register("TestDilithiumRecovery", df)
 	ev.Register("TestFreshKeys", func(t *testing.T, r *ev.Recorder, raw json.RawMessage) {
